@@ -12,9 +12,10 @@
 EXTENDS DBusWire, Json, IOUtils, TLC
 
 Rec == ndJsonDeserialize(IOEnv.TRACE)
-VARIABLE l
-Init == l \in 1..Len(Rec)
-Next == UNCHANGED l
+\* TLC does not cache Rec: the record of a line is carried in the state so the file is parsed once
+VARIABLES l, rec
+Init == LET R == Rec IN \E i \in 1..Len(R) : l = i /\ rec = R[i]
+Next == UNCHANGED <<l, rec>>
 
 Has(r, f) == f \in DOMAIN r
 
@@ -32,7 +33,20 @@ Norm(T, v) ==
                     IF p.ok /\ Len(p.ts) >= 2 THEN [s |-> <<40>> \o v.s \o <<41>>] ELSE [s |-> v.s]
     [] OTHER -> v
 
-Report(what, detail) == PrintT(<<"MISMATCH", ToJson([line |-> l, id |-> Rec[l].id, what |-> what, detail |-> detail])>>)
+(* The D-Bus specification calls a dict with a repeated key corrupt but lets
+   implementations accept it; what such an encoding denotes is unspecified, so
+   the denoted-value clause is not applied to it. *)
+RECURSIVE HasDupKeys(_,_)
+HasDupKeys(T, v) ==
+  CASE T.k = "a" /\ T.e.k = "e" ->
+         \/ \E i, j \in 1..Len(v.a) : i < j /\ v.a[i].r[1] = v.a[j].r[1]
+         \/ \E i \in 1..Len(v.a) : HasDupKeys(T.e.val, v.a[i].r[2])
+    [] T.k = "a" -> \E i \in 1..Len(v.a) : HasDupKeys(T.e, v.a[i])
+    [] T.k = "r" -> \E i \in 1..Len(v.r) : HasDupKeys(T.f[i], v.r[i])
+    [] T.k = "v" -> HasDupKeys(v.t, v.v)
+    [] OTHER -> FALSE
+
+Report(what, detail) == PrintT(<<"MISMATCH", ToJson([line |-> l, id |-> rec.id, what |-> what, detail |-> detail])>>)
 
 (* --- Enc lines: C01 (bytes, size, fds), C02 (round trip), C03 (valid encodings decode) --- *)
 EncChecks(r) ==
@@ -58,12 +72,12 @@ DecChecks(r) ==
   ELSE IF d.ok /\ r.dec.outcome # "ok" THEN Report("dec-rejects-valid", [spec |-> d, got |-> r.dec])
   ELSE IF ~d.ok /\ r.dec.outcome = "ok" THEN Report("dec-accepts-invalid", [why |-> d.why, got |-> r.dec])
   ELSE IF d.ok THEN
-      /\ ((r.dec.T = r.T /\ Norm(r.T, r.dec.v) = Norm(r.T, d.v)) \/ Report("dec-value", [got |-> r.dec.v, want |-> d.v]))
+      /\ (HasDupKeys(r.T, d.v) \/ (r.dec.T = r.T /\ Norm(r.T, r.dec.v) = Norm(r.T, d.v)) \/ Report("dec-value", [got |-> r.dec.v, want |-> d.v]))
       /\ (r.dec.consumed = d.next - 1 \/ Report("dec-consumed", [consumed |-> r.dec.consumed, want |-> d.next - 1]))
   ELSE TRUE
 
 LineOk ==
-  LET r == Rec[l] IN
+  LET r == rec IN
   CASE r.ev = "Enc" /\ r.fmt = "dbus" -> EncChecks(r)
     [] r.ev = "Dec" /\ r.fmt = "dbus" -> DecChecks(r)
     [] OTHER -> TRUE
